@@ -344,7 +344,8 @@ def r7_3(prog, rep, pp):
                 class_tables.setdefault(an, f"{cls.qual}.{an}")
     for q, f in sorted(prog.functions.items()):
         locals_ = set(DF._all_params(f)) | {t.id for s in ast.walk(f.node) if isinstance(s, (ast.Assign, ast.For, ast.comprehension))
-                                            for t in ast.walk(s.targets[0] if isinstance(s, ast.Assign) else s.target) if isinstance(t, ast.Name)}
+                                            for t in ast.walk(s.targets[0] if isinstance(s, ast.Assign) else s.target)
+                                            if isinstance(t, ast.Name) and isinstance(t.ctx, ast.Store)}
         for node, target, kind, root in DF.inplace_sites(f):
             base = target
             while isinstance(base, (ast.Subscript,)):
